@@ -1,1 +1,35 @@
-"""Property-specific additional steps of the check driver (filled in per property)."""
+"""Property-specific additional steps of the check driver."""
+import os, subprocess, re
+
+
+def _geo(pid, ctx, k_quick, k_thorough):
+    """certified tie of the real-valued model (coq/Sphere.v) to the implementation's float64 outputs"""
+    scratch, root = ctx["scratch"], ctx["root"]
+    cases = os.path.join(scratch, "cases.txt")
+    outdir = os.path.join(scratch, "geo_goals")
+    os.makedirs(outdir, exist_ok=True)
+    k = k_thorough if ctx["tier"] == "thorough" else k_quick
+    r = subprocess.run(["python3", os.path.join(root, "tools", "geo_goals.py"), cases, outdir, str(k)],
+                       stdout=subprocess.PIPE, stderr=subprocess.STDOUT, text=True)
+    m = re.search(r"GOALS (\d+) PROVED (\d+) FAILED (\d+)", r.stdout)
+    res = {"interval_goals": 0, "interval_goals_proved": 0, "violations": []}
+    if not m:
+        rp = os.path.join(root, "replays", "%s-interval.txt" % pid)
+        open(rp, "w").write("the interval-goal generator failed:\n" + r.stdout[-3000:])
+        res["violations"].append((rp, " no-failing-input-found"))
+        return res
+    res["interval_goals"], res["interval_goals_proved"] = int(m.group(1)), int(m.group(2))
+    res["interval_goal_kinds"] = ("goals closed by the interval tactic: |model formula at the exact inputs - implementation output| <= tolerance "
+                                  "(haversine 1e-14, metres->haversine 1e-14, DistanceTo via its haversine 1e-13, DestinationPoint latitude law 1e-12, "
+                                  "RectFromCenter latitude band 1e-9 deg and tangent-longitude law 1e-8, Circle point test against the stored haversine 1e-15)")
+    if int(m.group(3)) > 0:
+        rp = os.path.join(root, "replays", "%s-interval.txt" % pid)
+        open(rp, "w").write("# property %s: the real-valued model coq/Sphere.v evaluated at these exact inputs does NOT enclose the\n"
+                            "# implementation's output within the stated tolerance (interval tactic could not close the goal)\n" % pid + r.stdout)
+        res["violations"].append((rp, ""))
+    return res
+
+
+def extra_C13(ctx): return _geo("C13", ctx, 60, 600)
+def extra_C14(ctx): return _geo("C14", ctx, 80, 800)
+def extra_C15(ctx): return _geo("C15", ctx, 30, 400)
